@@ -18,7 +18,7 @@ PROPERTY = 'C14'
 RULE = ('random constant expressions of depth <= 5 over all arithmetic, comparison, equality, logical and unary operators, every legal `is` cast, '
         '?? and const-variable references, literals from the boundary grid of the word size (in range for the word), used as printed value, '
         'branch condition, declaration initialiser and !truth_is_defeat argument; each compiled in constant form and as run-time twin at word '
-        'sizes 2,3,4; 40% of the programs also mix run-time operands (an effectful call tick(), a variable) into the constant expressions, use constant (sometimes zero) divisors under run-time dividends, and loops whose condition folds to false; non-trivial = the program has >= 2 operators over constant operands; distinct by (program text, word)')
+        'sizes 2,3,4; 40% of the programs also mix run-time operands (an effectful call tick(), a variable) into the constant expressions, use constant (sometimes zero) divisors under run-time dividends, and loops whose condition folds to false; a `forms` shard enumerates constant indices (in range, negative, out of range) into constant strings, array literals and local arrays, computed left operands next to array[constant], and dynamic arrays of constant length at the boundaries of the size arithmetic; non-trivial = the program has >= 2 operators over constant operands; distinct by (program text, word)')
 ASSUMPTIONS = common.ISA_ASSUMPTIONS[:3] + ['the twin replaces each literal v by (zz + v) / ((zz + v) is byte) / (zz == 0) with a mutable global zz = 0']
 REQUIRED_HIDC_FUNCTIONS = ['ast/operators:ArithmeticOp.simplify', 'ast/operators:BooleanOp.simplify']     # M-COV: deciding code never entered => inconclusive
 MIN_NONTRIVIAL = {'quick': 1200, 'thorough': 10000}
@@ -28,7 +28,7 @@ MAX_STEPS = 300_000
 def plan(tier, seed):
     n, per = (16, 110) if tier == 'quick' else (64, 260)
     specs = [{'kind': 'gen', 'seed': s, 'count': per, 'word': 2 + (i % 3)} for i, s in enumerate(common.shard_seeds(seed, n))]
-    return specs + [{'kind': 'witness', 'seed': 0, 'word': w} for w in (2, 3, 4)]
+    return specs + [{'kind': 'witness', 'seed': 0, 'word': w} for w in (2, 3, 4)] + [{'kind': 'forms', 'seed': 0, 'word': w} for w in (2, 3, 4)]
 
 
 class CGen:
@@ -141,6 +141,51 @@ class CGen:
         return Cast(self.expr(r.choice([INT, BYTE]), d - 1), BOOL)
 
 
+def forms(word, bits, hi):
+    """constant-dependent decisions other than arithmetic folding, enumerated: constant indices (in and out of range,
+    negative) into constant strings, const string variables, constant array literals and local arrays; a computed left
+    operand next to `array[constant]`; dynamic arrays whose length is a constant at the boundaries of the size arithmetic.
+    yields (tag, [(expr, usage)], consts)"""
+    digits = b'0123456789'
+    S = lambda: Lit(STRING, digits)                                    # noqa: E731
+    ks = {'ks': (STRING, digits, Lit(STRING, digits))}
+    for k in list(range(-12, 13)) + [hi, -hi - 1, 255, 256, -256]:
+        yield f'literal string [{k}]', [(Index(S(), Lit(INT, k)), 'value')], {}
+        yield f'const string [{k}]', [(Index(Var('ks', STRING, digits), Lit(INT, k)), 'value')], ks
+        if -5 <= k <= 5 or abs(k) > 200:
+            yield f'constant int literal [{k}]', [(Index(ArrLit([Lit(INT, 10), Lit(INT, 20), Lit(INT, 30)], INT, True), Lit(INT, k)), 'value')], {}
+            yield f'constant bool literal [{k}]', [(Index(ArrLit([Lit(BOOL, True), Lit(BOOL, False), Lit(BOOL, True)], BOOL, True), Lit(INT, k)), 'branch')], {}
+            yield f'local array [{k}]', [(Index(Var('ra', Arr(INT, False)), Lit(INT, k)), 'value')], {}
+        if -3 <= k <= 3:
+            yield f'length of string slice [{k}]', [(Bin('+', Len(S()), Cast(Index(S(), Lit(INT, k)), INT)), 'value')], {}
+    rv = Var('rv', INT)
+    ra = Var('ra', Arr(INT, False))
+    pf = Func('pf', [('p', Arr(INT, True), False), ('x', INT, False)], INT,
+              [Ret(Bin('-', Bin('*', Bin('+', Var('x', INT), Lit(INT, 1)), Index(Var('p', Arr(INT, True)), Lit(INT, 2))), Index(Var('p', Arr(INT, True)), Lit(INT, 0))))])
+    tick = CGen(random.Random(0), bits, True).tick
+    lefts = [lambda: Bin('+', rv, Lit(INT, 3)), lambda: Bin('*', rv, rv), lambda: Call(tick, [Lit(INT, 1)]), lambda: Un('-', rv),
+             lambda: Index(ra, Lit(INT, 0)), lambda: Cast(Cast(rv, BYTE), INT)]
+    for li, L in enumerate(lefts):
+        items = []
+        for op in ('+', '-', '*', '/', '%', '<', '>=', '==', '!='):
+            for k in (0, 1, 2):
+                e = Bin(op, L(), Index(ra, Lit(INT, k)))
+                items.append((e, 'value' if op in '+-*/%' else 'branch'))
+                if op in '+<':
+                    items.append((e, 'decl'))
+        items.append((Call(pf, [ra, L()]), 'value'))
+        yield f'computed left operand #{li} next to array[constant]', items, {}
+    w = word
+    full = 1 << bits
+    lens = {0, 1, 7, 8, 9, hi // w, hi // w + 1, hi // 2 + 1, hi - 7, hi, (full + w - 1) // w, (full + w - 1) // w + 1, (full // 2) // w, (full // 2) // w + 1,
+            (2 * full + w - 1) // w, 3 * ((full + w - 1) // w)}
+    for el in (INT, BOOL, BYTE, STRING):
+        for n in sorted(x for x in lens if 0 <= x <= hi):
+            yield f'{el} array of constant length {n}', [(Lit(INT, n), ('vla', el))], {}
+        for n in (-1, -8, -hi - 1, -hi):
+            yield f'{el} array of constant length {n}', [(Un('-', Lit(INT, -n)) if n != -hi - 1 else Bin('-', Un('-', Lit(INT, hi)), Lit(INT, 1)), ('vla', el))], {}
+
+
 def spec_problem(e, usage):
     """?? may not appear inside a try body nor inside an operand of another ??"""
     specs = [x for x in A.walk_expr(e) if isinstance(x, Spec)]
@@ -190,9 +235,22 @@ def build(stmts_exprs, consts, tick):
     W = lambda *a: ExprStmt(Call('write', list(a)))     # noqa: E731
     sep = W(Lit(BYTE, ord(';'), keep=True))
     body.insert(0, Decl('rv', INT, Lit(INT, 5, keep=True)))
+    funcs = []
+    if any(isinstance(x, Var) and x.name == 'ra' for e, _ in stmts_exprs for x in A.walk_expr(e)):
+        body.insert(1, Decl('ra', Arr(INT, False), ArrLit([Bin('+', Var('rv', INT), Lit(INT, 10 * j, keep=True)) for j in (1, 2, 3)], INT, False)))
+    for e, _ in stmts_exprs:
+        for x in A.walk_expr(e):
+            if isinstance(x, Call) and isinstance(x.func, Func) and x.func.name != 'tick' and x.func not in funcs:
+                funcs.append(x.func)
     k = 0
     for e, usage in stmts_exprs:
         k += 1
+        if isinstance(usage, tuple) and usage[0] == 'vla':
+            # a dynamic array whose length is a compile-time constant: same guards, same outcome as with a run-time length
+            nm = f'va{k}'
+            t = Arr(usage[1], False)
+            body += [VLA(nm, usage[1], e), W(Len(Var(nm, t))), sep]
+            continue
         if usage == 'loop':
             # a loop whose condition folds to false must simply be skipped (and what follows it must still run)
             body += [While(e, [W(Lit(BYTE, ord('L'), keep=True))]), W(Lit(BYTE, ord('a'), keep=True)), sep]
@@ -212,7 +270,7 @@ def build(stmts_exprs, consts, tick):
         else:
             body.append(Try([ExprStmt(Call('!truth_is_defeat', [e])), W(Lit(BYTE, ord('F'), keep=True))], 'stop', [W(Lit(BYTE, ord('T'), keep=True))]))
         body.append(sep)
-    return Program([Decl('tn', INT, Lit(INT, 0, keep=True))], [Func('@is_you', [], EMPTY, body), tick])
+    return Program([Decl('tn', INT, Lit(INT, 0, keep=True))], [Func('@is_you', [], EMPTY, body), tick] + funcs)
 
 
 def check_items(res, items, consts, word, lo, hi):
@@ -277,6 +335,11 @@ def run_shard(spec):
                   Bin('==', Bin('-', Lit(INT, lo), Lit(INT, 1)), Lit(INT, hi))):
             check_items(res, [(e, 'value')], {}, word, lo, hi)
         return res
+    if spec['kind'] == 'forms':
+        for tag, items, consts in forms(word, bits, hi):
+            check_items(res, items, consts, word, lo, hi)
+        res['exhaustive'] = True
+        return res
     for i in range(spec['count']):
         safe = r.random() < 0.75
         g = CGen(r, bits, safe)
@@ -299,7 +362,7 @@ def run_shard(spec):
                 g.runtime = False
                 e = g.expr(BOOL, r.randint(1, 4))
                 g.runtime = was
-                if is_const(e) and const_eval(e) is False and not spec_problem(e, 'tid'):
+                if is_const(e) and const_eval(e) is False and not spec_problem(e, 'tid') and g.exact(e):      # (inexact: the twin may loop for ever - fold-nowrap - and no model run could triage that)
                     items.append((e, 'loop'))
                     continue
             e = g.expr(t, r.randint(1, 5))
